@@ -133,6 +133,27 @@ def check_ports(rep, d):
         if not pos[a][1] > pos[b][1] - EPS:
             rep.fail('C20:special.downwards', 'edge %r -> %r points upwards' % (a, b), r)
             return
+    # census of the boxes: every box of the diagram, at every depth of nesting inside bubbles, has exactly one node, and no
+    # bubble is left as one opaque node (a bubble is drawn as an opening box, its inside, a closing box)
+    from discopy import monoidal as _m
+
+    def leaves(dd):
+        out = []
+        for b in dd.boxes:
+            if isinstance(b, _m.Bubble):
+                out += ['<open>'] + leaves(b.inside) + ['<close>']
+            else:
+                out.append(str(getattr(b, 'name', b)))
+        return out
+    want = leaves(d)
+    drawn = [k.box for k in graph.nodes if k.kind == 'box']
+    if any(isinstance(b, _m.Bubble) for b in drawn):
+        rep.fail('C20:special.bubble_unopened', 'a bubble is drawn as a single opaque box', r)
+        return
+    # (the opening / closing boxes of a bubble are flagged only when the bubble keeps the number of wires of its inside, so
+    # only the total is compared)
+    if len(drawn) != len(want):
+        rep.fail('C20:special.census', '%d box nodes for the boxes %r' % (len(drawn), want), r)
 
 
 def specials():
@@ -152,7 +173,10 @@ def specials():
             rigid.Id(n) @ rigid.Cap(n.r, n) >> rigid.Swap(n, n.r) @ rigid.Id(n) @ rigid.Box('h', rigid.Ty(), n),
             rigid.Cap(n.r, n) >> rigid.Swap(n.r, n) >> rigid.Cup(n, n.r)]
     out += [f.bubble(), (f >> g @ g).bubble(), f.bubble() >> g @ g, Id(x) @ g.bubble() @ Id(y),
-            f.bubble(dom=x @ x, cod=y), g.bubble(dom=y, cod=x @ x), Box('s', Ty(), x).bubble(), Box('e', x, Ty()).bubble()]
+            f.bubble(dom=x @ x, cod=y), g.bubble(dom=y, cod=x @ x), Box('s', Ty(), x).bubble(), Box('e', x, Ty()).bubble(),
+            # bubbles inside bubbles
+            f.bubble().bubble(), (f.bubble() >> g @ g).bubble(), (Id(x) @ g.bubble()).bubble() @ Id(y),
+            f.bubble().bubble().bubble() >> g.bubble() @ g]
     return out
 
 
